@@ -391,16 +391,30 @@ def selftest(pid):
         if os.path.exists(meta_file) and json.load(open(meta_file)).get("not_claimed_reason"):
             log("selftest %s with %s: skipped, recorded as outside the claimed domain (see its meta.json)" % (pid, os.path.relpath(patch, VERIF)))
             continue
+        # the check(s) recorded as catching the change: the property's own, unless its meta.json says that
+        # the statement it breaks is a sibling property's and names the check that reported it
+        by = [pid]
+        if os.path.exists(meta_file):
+            runs = json.load(open(meta_file)).get("checks_run", {})
+            if runs.get(pid, {}).get("exit") != 1 and any(v.get("exit") == 1 for v in runs.values()):
+                by = sorted(k for k, v in runs.items() if v.get("exit") == 1)
         wt = tempfile.mkdtemp(prefix="selftest-")
         shutil.rmtree(wt)
         out = tempfile.mkdtemp(prefix="selftest-out-")
         try:
             subprocess.run(["git", "-C", "/repo", "worktree", "add", "-q", "--detach", wt, "HEAD"], check=True)
-            subprocess.run(["git", "apply", patch], cwd=wt, check=True)
+            if subprocess.run(["git", "apply", patch], cwd=wt, capture_output=True).returncode != 0:
+                log("selftest %s with %s: STALE (the patch does not apply to the current tree)" % (pid, os.path.relpath(patch, VERIF)))
+                ok = False
+                continue
             env = dict(os.environ, VERIF_REPO=wt, VERIF_OUT=out)
-            p = subprocess.run([os.path.join(VERIF, "bin", "check"), pid, "quick"], env=env, capture_output=True, text=True)
-            hit = p.returncode == 1 and "VIOLATION property=%s" % pid in p.stdout
-            log("selftest %s with %s: %s" % (pid, os.path.relpath(patch, VERIF), "violation reported" if hit else "NOT DETECTED (rc=%d)" % p.returncode))
+            hit = False
+            for q in by:
+                p = subprocess.run([os.path.join(VERIF, "bin", "check"), q, "quick"], env=env, capture_output=True, text=True)
+                hit = hit or (p.returncode == 1 and "VIOLATION property=%s" % q in p.stdout)
+            log("selftest %s with %s: %s%s" % (pid, os.path.relpath(patch, VERIF),
+                                             "violation reported" if hit else "NOT DETECTED (rc=%d)" % p.returncode,
+                                             "" if by == [pid] else " (by the check of %s)" % ", ".join(by)))
             ok = ok and hit
         finally:
             subprocess.run(["git", "-C", "/repo", "worktree", "remove", "--force", wt])
